@@ -43,14 +43,24 @@ func (g *cGraph) fault(i int) string { return g.Fault[fmt.Sprint(i)] }
 // shared endpoint Order <- Log (statement order = order in which files were walked).
 func (g *cGraph) content(i int) string {
 	var b strings.Builder
+	if i%3 == 1 {
+		b.WriteString("# header comment\n\n")
+	}
 	for k := range g.Imports[i] {
 		fmt.Fprintf(&b, "import %s\n", g.Spell[i][k])
+		// comment and blank lines between import statements are legal
+		switch (i + k) % 4 {
+		case 1:
+			b.WriteString("# a comment between imports\n")
+		case 2:
+			b.WriteString("\n")
+		}
 	}
 	switch g.fault(i) {
 	case "syntaxImport":
 		b.WriteString("import x as\n")
 	case "missingImport":
-		b.WriteString("import missing_file\n")
+		fmt.Fprintf(&b, "import /missing_%d\n", i)
 	}
 	b.WriteString("\n")
 	fmt.Fprintf(&b, "F%d:\n    !type T%d:\n        x <: int\n\nOrder:\n    Log:\n        f%d\n", i, i, i)
@@ -70,23 +80,21 @@ func spellImport(r *Rand, dir, t string) string {
 		return "missing_file"
 	}
 	noext := strings.TrimSuffix(t, ".sysl")
-	if r.Bool() {
+	if r.Bool() && !strings.Contains(path.Base(noext), ".") {
+		// ".sysl" may be elided only when what remains has no extension of its own
 		t = noext
 	}
+	rel, _ := filepath.Rel("/v/w/"+dir, "/v/w/"+t)
 	switch r.Intn(5) {
 	case 0:
 		return "/" + t // rooted
 	case 1:
-		rel, _ := filepath.Rel("/"+dir, "/"+t)
 		return "./" + rel
 	case 2:
-		rel, _ := filepath.Rel("/"+dir, "/"+t)
 		return "zz/../" + rel
 	case 3:
-		rel, _ := filepath.Rel("/"+dir, "/"+t)
 		return "./zz/.././" + rel
 	default:
-		rel, _ := filepath.Rel("/"+dir, "/"+t)
 		return rel
 	}
 }
@@ -95,8 +103,22 @@ func genGraph(r *Rand, n int, density int) *cGraph {
 	g := &cGraph{N: n, Fault: map[string]string{}}
 	for i := 0; i < n; i++ {
 		p := fmt.Sprintf("f%d.sysl", i)
-		if i > 0 && r.Chance(1, 3) {
-			p = "sub/" + p
+		switch {
+		case i > 1 && r.Chance(1, 4):
+			// a DIFFERENT file whose path differs from an earlier one only by leading dots /
+			// parent segments (gen/x vs .gen/x vs ../gen/x): must stay a distinct file
+			q := g.Paths[1+r.Intn(i-1)]
+			// (hidden directories / files: leading dot; paths above the reader's root are not used)
+			q = strings.TrimPrefix(q, ".")
+			cands := []string{"." + q, q}
+			p = Pick(r, cands)
+			for _, old := range g.Paths {
+				if old == p {
+					p = fmt.Sprintf("f%d.sysl", i)
+				}
+			}
+		case i > 0 && r.Chance(1, 3):
+			p = Pick(r, []string{"sub/", "gen/", ".gen/", "sub/deep/"}) + p
 		}
 		g.Paths = append(g.Paths, p)
 	}
@@ -177,7 +199,7 @@ func (r *gateReader) ReadHashBranch(_ context.Context, p string) ([]byte, retrie
 	}
 	<-w.ch
 	idx := r.g.index(p)
-	if idx < 0 {
+	if idx < 0 || idx >= r.g.N {
 		return nil, retriever.ZeroHash, "", os.ErrNotExist
 	}
 	if r.g.fault(idx) == "readErr" {
@@ -196,6 +218,10 @@ func (g *cGraph) index(p string) int {
 		if q == p {
 			return i
 		}
+	}
+	var k int
+	if _, err := fmt.Sscanf(p, "missing_%d.sysl", &k); err == nil {
+		return g.N + k // the missing file imported by file k
 	}
 	return -1
 }
@@ -221,6 +247,7 @@ type simState struct {
 
 // runGated compiles root file 0 of g, releasing reads in the order chosen by picks.
 func runGated(g *cGraph, picks []int) *cRun {
+	defer Track(map[string]any{"graph": g, "picks": [][]int{picks}})()
 	rd := &gateReader{Fs: afero.NewMemMapFs(), g: g, changed: make(chan struct{}, 1)}
 	out := &cRun{}
 	type res struct {
@@ -297,7 +324,7 @@ func runGated(g *cGraph, picks []int) *cRun {
 		out.Order = append(out.Order, idx)
 		// predict arrivals caused by this completion
 		newArr := 0
-		if idx >= 0 && g.fault(idx) != "readErr" && g.fault(idx) != "syntaxImport" {
+		if idx >= 0 && idx < g.N && g.fault(idx) != "readErr" && g.fault(idx) != "syntaxImport" {
 			d := sim.depth[idx]
 			for _, c := range g.Imports[idx] {
 				if g.Max > 0 && d+1 >= g.Max {
@@ -438,7 +465,7 @@ func (g *cGraph) oracleReq(order []int) map[string]any {
 		ims := append([]int{}, g.Imports[i]...)
 		f := g.fault(i)
 		if f == "missingImport" {
-			ims = append(ims, g.N) // a file that does not exist
+			ims = append(ims, g.N+i) // a file that does not exist; its import line is the last one
 		}
 		if f == "readErr" {
 			continue // absent from G = unreadable
@@ -567,6 +594,20 @@ func c05Corpus() []*cGraph {
 func c06AddFaults(r *Rand, g *cGraph) {
 	kinds := []string{"readErr", "syntaxImport", "syntaxBody", "truncated", "missingImport"}
 	k := 1 + r.Intn(2)
+	// prefer files whose path is a near-duplicate of another file's (gen/x vs .gen/x): a fault
+	// there must be reported like any other
+	var twins []int
+	for i, p := range g.Paths {
+		for j, q := range g.Paths {
+			if i != j && strings.TrimLeft(p, "./") == strings.TrimLeft(q, "./") {
+				twins = append(twins, i)
+			}
+		}
+	}
+	if len(twins) > 0 && r.Chance(2, 3) {
+		g.Fault[fmt.Sprint(Pick(r, twins))] = Pick(r, kinds)
+		return
+	}
 	for j := 0; j < k; j++ {
 		g.Fault[fmt.Sprint(r.Intn(g.N))] = Pick(r, kinds)
 	}
@@ -628,7 +669,7 @@ func c05Execute(res *Result, jobs []c05Job, faults bool) {
 	var mu sync.Mutex
 	var all []one
 	var wg sync.WaitGroup
-	sem := make(chan struct{}, 16)
+	sem := make(chan struct{}, workers(6))
 	for ji := range jobs {
 		for pi := range jobs[ji].picks {
 			wg.Add(1)
@@ -694,7 +735,7 @@ func c05Execute(res *Result, jobs []c05Job, faults bool) {
 			cnt[g.index(a)]++
 		}
 		for f, c := range cnt {
-			if c > 1 && f >= 0 {
+			if c > 1 && f >= 0 && f < g.N {
 				res.Violate(Violation{Sig: "fetched-twice", What: fmt.Sprintf("file %s was fetched %d times", g.Paths[f], c), Input: in, Got: run.Arrivals})
 			}
 		}
@@ -834,7 +875,7 @@ func c06Direct(res *Result, g *cGraph, run *cRun, in any) {
 			certain = true
 		}
 		if k == "missingImport" {
-			failing = append(failing, "missing_file")
+			failing = append(failing, fmt.Sprintf("missing_%d", f))
 		}
 		failing = append(failing, strings.TrimSuffix(path.Base(g.Paths[f]), ".sysl"))
 	}
@@ -847,7 +888,7 @@ func c06Direct(res *Result, g *cGraph, run *cRun, in any) {
 		fetched := false
 		for _, a := range run.Arrivals {
 			i := g.index(a)
-			if i < 0 || g.fault(i) != "" {
+			if i < 0 || i >= g.N || g.fault(i) != "" {
 				fetched = true
 			}
 		}
